@@ -441,6 +441,11 @@ func Check(c Case) *kit.Violation {
 		}
 		log = nil
 		rec := httptest.NewRecorder()
+		if ri%3 == 2 {
+			// a middleware in front (an HTML error page, a builder) has put its own Content-Type on the response already:
+			// what is answered does not depend on it (r10)
+			rec.Header().Set("Content-Type", "text/html; charset=utf-8")
+		}
 		if v := kit.Guard("API handler", func() { h.ServeHTTP(rec, req) }); v != nil {
 			return kit.Failf("request %d %s %s produces=%q Accept=%q outcome=%s: %s", ri, method, target, offers, lines, rq.Outcome, v.Msg)
 		}
